@@ -793,6 +793,12 @@ func configFeeds(p *Prog, gField, cfgField string, div int64) (bool, string, str
 			return name == "Config"
 		}
 		if div == 1 {
+			// plain copy or a type conversion of the field
+			if c, isCall := rhs.(*ast.CallExpr); isCall && len(c.Args) == 1 {
+				if tv, has := info.Types[c.Fun]; has && tv.IsType() {
+					rhs = stripParens(c.Args[0])
+				}
+			}
 			if !isField(rhs) {
 				ok = false
 			}
